@@ -319,8 +319,11 @@ def _overwrite_single_node(
     parentpath = rootname+'/'.join(parentpath[:-1])
     parentgroup = group.file[parentpath]
 
-    # Rename the old group
-    parentgroup.move(name,"_tmp_"+name)
+    # Rename the old group, under a scratch name that no sibling uses
+    tmpname = "_tmp_"+name
+    while tmpname in parentgroup.keys():
+        tmpname = "_tmp_"+tmpname
+    parentgroup.move(name,tmpname)
 
     # Write the new data 
     new_group = _write_single_node(
@@ -335,7 +338,7 @@ def _overwrite_single_node(
         new_group[key] = group[key]
 
     # Remove the old group
-    del(parentgroup["_tmp_"+name],group)
+    del(parentgroup[tmpname],group)
 
     # Return
     return new_group
